@@ -9,7 +9,7 @@ from .. import canon, gen
 from ..core import call_real
 
 ID = "C12"
-LEAN_MODULE = "CKT.Props.C12Sem"
+LEAN_MODULE = "CKT.Props.C12PTM"
 THEOREMS = [
     "CKT.C12.removeInitial_only", "CKT.C12.removeFinal_only", "CKT.C12.consolidate_only",
     "CKT.C12.passRemoveFinalReset_only", "CKT.C12.passConsolidateResets_only",
@@ -17,10 +17,15 @@ THEOREMS = [
     # semantic half, for every semantics obeying the four reset laws (C12Sem)
     "CKT.C12Sem.removeInitial_run", "CKT.C12Sem.consolidate_run", "CKT.C12Sem.removeFinal_obs", "CKT.C12Sem.optimizeResets_obs",
     "CKT.C12Sem.each_pass_obs", "CKT.C12Sem.classical",
+    # the four reset laws proved for the Pauli-expectation semantics of dynamic circuits (any gate matrices): T12.3 without assumed laws
+    "CKT.Sem.applyL_comm", "CKT.Sem.prim_comm", "CKT.C12PTM.reset_reset", "CKT.C12PTM.ap_reset_comm", "CKT.C12PTM.init_reset", "CKT.C12PTM.ptm",
+    "CKT.C12PTM.optimizeResets_statistics", "CKT.C12PTM.each_pass_statistics", "CKT.Sem.resetM_is_channel_ptm",
 ]
 RULE = ("dynamic circuits over {reset,h,x,sx,cx (both directions),measure,barrier} on 1-4 qubits / 0-4 clbits with up to 16 instructions; "
         "thorough additionally enumerates every program of length <=5 on 2 qubits / 1 clbit (exhaustive); every circuit is pushed through the three "
-        "list scans, their composition and the two transpiler passes; non-trivial = contains a reset; distinct by program")
+        "list scans, their composition and the two transpiler passes; non-trivial = contains a reset; distinct by program; fixed families: resets after "
+        "non-gate state-changing instructions (uncut Move, to_instruction() composites, Initialize) and -- independent simulator only, no model -- "
+        "if / if-else / for / while blocks with resets in their bodies on qubits used again afterwards")
 ASSUMPTIONS = ["Qiskit's circuit<->DAG conversion may re-linearise instructions on disjoint wires: the transpiler passes are compared per wire",
                "reference semantics for the failing-input search: density-matrix branch simulator (harness/oracles/refsim.py)",
                "T12.3 (`optimizeResets_obs`, `each_pass_obs`) is proved for every semantics obeying the four laws of `C12Sem.ResetSem` (a reset commutes "
@@ -76,7 +81,69 @@ def _applied_cases(rng, tier):
         yield ("applied", p)
 
 
+def _g(name, *qs, **kw):
+    return dict({"name": name, "qubits": list(qs)}, **kw)
+
+
+def _m(q, c):
+    return {"name": "measure", "qubits": [q], "clbits": [c]}
+
+
+def _nongate_cases():
+    """seed-independent: instructions that change the state of a qubit without being (unitary) gates -- the package's own Move left
+    uncut (qubit re-use), composite instructions made with to_instruction(), Initialize -- followed by a reset of a qubit that nothing
+    else has touched, whose state matters afterwards; the same shapes with the composite turned into a gate for contrast"""
+    flip = lambda q, how="instruction": _g("wrap", q, inner=[_g("x", 0)], gname="flip", how=how)          # noqa: E731
+    had = lambda q: _g("wrap", q, inner=[_g("h", 0)], gname="had", how="instruction")                     # noqa: E731
+    bell = lambda a, b: _g("wrap", a, b, inner=[_g("h", 0), _g("cx", 0, 1)], gname="bell", how="instruction")  # noqa: E731
+    rprep = lambda q: _g("wrap", q, inner=[_g("reset", 0), _g("x", 0)], gname="prep1", how="instruction")  # noqa: E731
+    progs = [
+        (2, 1, [_g("x", 0), _g("move", 0, 1), _g("reset", 1), _m(1, 0)]),
+        (2, 1, [_g("x", 1), _g("move", 1, 0), _g("barrier", 0, 1), _g("reset", 0), _g("reset", 0), _m(0, 0)]),
+        (3, 1, [_g("h", 0), _g("move", 0, 2), _g("reset", 2), _g("cx", 2, 1), _m(1, 0)]),
+        (2, 1, [flip(0), _g("reset", 0), _m(0, 0)]),
+        (2, 1, [flip(0, "gate"), _g("reset", 0), _m(0, 0)]),
+        (2, 2, [flip(1), _g("reset", 1), _g("cx", 1, 0), _m(0, 0), _m(1, 1)]),
+        (2, 1, [had(0), _g("reset", 0), _g("h", 0), _m(0, 0)]),
+        (2, 2, [bell(0, 1), _g("reset", 1), _m(0, 0), _m(1, 1)]),
+        (2, 2, [bell(1, 0), _g("reset", 0), _g("reset", 1), _g("cx", 0, 1), _m(1, 1), _g("reset", 0)]),
+        (1, 1, [_g("initialize", 0, state="1"), _g("reset", 0), _m(0, 0)]),
+        (2, 1, [_g("initialize", 1, state="+"), _g("barrier", 1), _g("reset", 1), _g("h", 1), _m(1, 0)]),
+        (2, 1, [rprep(0), _g("reset", 0), _g("cx", 0, 1), _m(1, 0), _g("reset", 1)]),
+        (2, 1, [_m(0, 0), _g("reset", 0), flip(0), _g("reset", 0), _m(0, 0)]),
+    ]
+    for nq, ncl, prog in progs:
+        for w in PASSES:
+            yield ("pass", {"nq": nq, "ncl": ncl, "prog": prog, "which": w, "always_oracle": True})
+
+
+def _cf_cases():
+    """seed-independent: control-flow operations (if / if-else / for / while) whose bodies contain resets -- at the end of the body, in
+    the middle, doubled -- on qubits that are used again after the block or by the next iteration.  The model has no control flow:
+    these cases are decided by the independent simulator only (kind "cf")."""
+    if_ = lambda c, v, body, orelse=None: {"name": "if", "qubits": [], "cond": [c, v], "body": body, "orelse": orelse}   # noqa: E731
+    for_ = lambda n, body: {"name": "for", "qubits": [], "times": n, "body": body}                                       # noqa: E731
+    while_ = lambda c, v, body: {"name": "while", "qubits": [], "cond": [c, v], "body": body}                            # noqa: E731
+    progs = [
+        [_g("x", 0), _m(0, 0), if_(0, 1, [_g("reset", 0)]), _m(0, 1)],
+        [_g("h", 0), _m(0, 0), if_(0, 1, [_g("h", 1), _g("reset", 0)]), _g("cx", 0, 1), _m(1, 1)],
+        [_g("x", 1), if_(0, 0, [_g("reset", 1), _g("reset", 1)]), _m(1, 1)],
+        [_g("h", 0), _m(0, 0), if_(0, 1, [_g("x", 1), _g("reset", 0)], [_g("x", 0), _g("reset", 1)]), _m(0, 1), _g("reset", 1)],
+        [for_(2, [_g("x", 0), _m(0, 1), _g("reset", 0)])],
+        [_g("h", 1), for_(2, [_g("cx", 1, 0), _g("reset", 1), _g("h", 1)]), _m(0, 0), _m(1, 1), _g("reset", 0)],
+        [_g("x", 0), _m(0, 0), while_(0, 1, [_g("reset", 0), _m(0, 0), _g("x", 1), _g("reset", 1)]), _g("cx", 1, 0), _m(0, 1)],
+        [_g("reset", 0), _g("x", 0), _m(0, 0), if_(0, 1, [_g("reset", 0), _g("h", 0)]), _g("reset", 0), _g("reset", 0), _m(0, 1), _g("reset", 0)],
+        [_g("x", 0), _g("x", 1), _m(1, 0), if_(0, 1, [_g("barrier", 0, 1), _g("reset", 0), _g("reset", 1)]), _g("barrier", 0, 1), _m(0, 1)],
+        [_g("h", 0), _m(0, 0), if_(0, 0, [_g("x", 0), for_(2, [_g("x", 1), _g("reset", 1)]), _g("reset", 0)]), _g("cx", 1, 0), _m(0, 1)],
+    ]
+    for prog in progs:
+        for w in PASSES:
+            yield ("cf", {"nq": 2, "ncl": 2, "prog": prog, "which": w, "always_oracle": True})
+
+
 def cases(rng, tier):
+    yield from _nongate_cases()
+    yield from _cf_cases()
     yield from _applied_cases(rng, tier)
     N = 120 if tier == "quick" else 1500
     for _ in range(N):
@@ -99,7 +166,63 @@ def cases(rng, tier):
                     yield ("pass", {"nq": 2, "ncl": 1, "prog": prog, "which": w})
 
 
+_EXT = ("wrap", "initialize", "if", "for", "while")
+
+
+def _has_ext(prog):
+    return any(i["name"] in _EXT for i in prog)
+
+
+def _emit(qc, prog):
+    from qiskit.circuit import QuantumCircuit, CircuitInstruction
+    for ins in prog:
+        name = ins["name"]
+        if name == "if":
+            c, v = ins["cond"]
+            if ins.get("orelse"):
+                with qc.if_test((qc.clbits[c], v)) as else_:
+                    _emit(qc, ins["body"])
+                with else_:
+                    _emit(qc, ins["orelse"])
+            else:
+                with qc.if_test((qc.clbits[c], v)):
+                    _emit(qc, ins["body"])
+            continue
+        if name == "for":
+            with qc.for_loop(range(ins["times"])):
+                _emit(qc, ins["body"])
+            continue
+        if name == "while":
+            c, v = ins["cond"]
+            with qc.while_loop((qc.clbits[c], v)):
+                _emit(qc, ins["body"])
+            continue
+        qs = [qc.qubits[q] for q in ins["qubits"]]
+        cs = [qc.clbits[c] for c in ins.get("clbits", [])]
+        if name == "wrap":
+            sub = QuantumCircuit(len(qs), name=ins.get("gname", "blk"))
+            _emit(sub, ins["inner"])
+            op = sub.to_gate() if ins.get("how") == "gate" else sub.to_instruction()
+        elif name == "initialize":
+            from qiskit.circuit.library import Initialize
+            op = Initialize(ins["state"])
+        elif name == "barrier":
+            op = canon.mk_op("barrier", [len(qs)])
+        else:
+            op = canon.mk_op(name, ins.get("params", ()))
+        qc.append(CircuitInstruction(op, qs, cs))
+
+
 def _circ(payload):
+    if _has_ext(payload["prog"]):
+        from qiskit.circuit import QuantumCircuit, QuantumRegister, ClassicalRegister
+        regs = ([QuantumRegister(sz, f"q{i}") for i, sz in enumerate(payload["qregs"])] if payload.get("qregs")
+                else [QuantumRegister(payload["nq"], "q")])
+        if payload["ncl"]:
+            regs.append(ClassicalRegister(payload["ncl"], "c"))
+        qc = QuantumCircuit(*regs)
+        _emit(qc, payload["prog"])
+        return qc
     return canon.build_circuit({"nq": payload["nq"], "qregs": payload.get("qregs"), "cregs": [["c", payload["ncl"]]] if payload["ncl"] else [],
                                 "instrs": payload["prog"]})
 
@@ -148,6 +271,9 @@ def model_line(kind, payload):
     if kind == "applied":
         from . import c05
         return c05.model_line("generate", payload)
+    if kind == "cf":
+        # control flow is outside the model: a trivial line keeps the driver protocol in step, nothing is compared (oracle only)
+        return {"op": "c12.pass", "which": payload["which"], "circuit": {"nq": 1, "cregs": [], "instrs": []}}
     return {"op": "c12.pass", "which": payload["which"], "circuit": canon.canon_circuit(_circ(payload))}
 
 
@@ -157,6 +283,8 @@ def run_real(kind, payload):
         return c05.run_real("generate", payload)
     qc = _circ(payload)
     out = _apply(qc, payload["which"])
+    if kind == "cf":
+        return {"ok": {"desc": json.loads(json.dumps(_desc(out)))}}
     return {"ok": _view(canon.canon_circuit(out)["instrs"], payload)}
 
 
@@ -164,6 +292,8 @@ def model_canon(kind, payload, out):
     if kind == "applied":
         from . import c05
         return c05.model_canon("generate", payload, out)
+    if kind == "cf":
+        return None
     if "driver_error" in out:
         raise RuntimeError(out["driver_error"])
     return {"ok": _view(out["ok"]["instrs"], payload)}
@@ -173,6 +303,8 @@ def compare(kind, payload, real, model):
     if kind == "applied":
         from . import c05
         return c05.compare("generate", payload, real, model)
+    if kind == "cf":
+        return None
     if real != model:
         return f"real={json.dumps(real)[:300]} model={json.dumps(model)[:300]}"
     return None
@@ -181,6 +313,8 @@ def compare(kind, payload, real, model):
 def describe(kind, payload):
     if kind == "applied":
         return {"kind2": "applied", "form": payload["form"]}
+    if kind == "cf":
+        return {"kind2": "control-flow", "which": payload["which"]}
     return {"which": payload["which"], "nq": payload["nq"], "len": len(payload["prog"]),
             "resets": sum(1 for p in payload["prog"] if p["name"] == "reset")}
 
@@ -188,6 +322,8 @@ def describe(kind, payload):
 def nontrivial_key(kind, payload):
     if kind == "applied":
         return hash(json.dumps(payload, sort_keys=True, default=str))
+    if kind == "cf":
+        return hash(json.dumps(payload, sort_keys=True))
     if not any(p["name"] == "reset" for p in payload["prog"]):
         return None
     return hash(json.dumps(payload, sort_keys=True))
@@ -204,7 +340,193 @@ def _ptrace_keep(rho, keep, n):
     return t.reshape(d, d)
 
 
+CONTROL_FLOW = ("if_else", "for_loop", "while_loop")
+
+
+def _cond_holds(cond, key, cmap):
+    target, value = cond
+    bits = list(target) if hasattr(target, "__len__") else [target]
+    got = sum(((key >> cmap[b]) & 1) << i for i, b in enumerate(bits))
+    return got == int(value)
+
+
+def _sim_run(circ, br, qmap, cmap, n):
+    """reference semantics (density matrix per classical outcome; harness/oracles/refsim.py primitives) extended with Move
+    (reset of the destination, then swap), composite non-unitary instructions (their definition) and if / for / while blocks"""
+    from qiskit.quantum_info import Operator
+    from ..oracles.refsim import apply_op, kraus, P0, P1, X
+
+    def merge(dst, src):
+        for k, r in src.items():
+            dst[k] = dst[k] + r if k in dst else r
+
+    def sub(body, inst):
+        return ({b: qmap[inst.qubits[i]] for i, b in enumerate(body.qubits)}, {b: cmap[inst.clbits[i]] for i, b in enumerate(body.clbits)})
+
+    for inst in circ.data:
+        op = inst.operation
+        nm = op.name
+        qs = [qmap[q] for q in inst.qubits]
+        if nm in ("barrier", "delay"):
+            continue
+        if nm == "measure":
+            c = cmap[inst.clbits[0]]
+            new = {}
+            for k, r in br.items():
+                for b, P in ((0, P0), (1, P1)):
+                    kk = (k & ~(1 << c)) | (b << c)
+                    rb = kraus(r, P, qs[0], n)
+                    new[kk] = new[kk] + rb if kk in new else rb
+            br = new
+        elif nm == "reset":
+            br = {k: kraus(r, P0, qs[0], n) + kraus(r, X @ P1, qs[0], n) for k, r in br.items()}
+        elif nm == "move":
+            swap = np.array([[1, 0, 0, 0], [0, 0, 1, 0], [0, 1, 0, 0], [0, 0, 0, 1]], dtype=complex)
+            br = {k: kraus(r, P0, qs[1], n) + kraus(r, X @ P1, qs[1], n) for k, r in br.items()}
+            br = {k: apply_op(r, swap, qs, n) for k, r in br.items()}
+        elif nm == "if_else":
+            new = {}
+            for which, body in ((True, op.blocks[0]), (False, op.blocks[1] if len(op.blocks) > 1 else None)):
+                part = {k: r for k, r in br.items() if _cond_holds(op.condition, k, cmap) == which}
+                if part and body is not None:
+                    part = _sim_run(body, part, *sub(body, inst), n)
+                merge(new, part)
+            br = new
+        elif nm == "for_loop":
+            indexset, _par, body = op.params
+            for _ in indexset:
+                br = _sim_run(body, br, *sub(body, inst), n)
+        elif nm == "while_loop":
+            body = op.blocks[0]
+            done = {}
+            for _ in range(12):
+                merge(done, {k: r for k, r in br.items() if not _cond_holds(op.condition, k, cmap)})
+                br = {k: r for k, r in br.items() if _cond_holds(op.condition, k, cmap) and abs(np.trace(r)) > 1e-14}
+                if not br:
+                    break
+                br = _sim_run(body, br, *sub(body, inst), n)
+            else:
+                raise RuntimeError("while loop of the test program does not terminate")
+            br = done
+        else:
+            try:
+                U = Operator(op).data
+            except Exception:
+                U = None
+            if U is not None:
+                br = {k: apply_op(r, U, qs, n) for k, r in br.items()}
+            else:
+                body = op.definition
+                if body is None:
+                    raise RuntimeError(f"cannot simulate {nm}")
+                br = _sim_run(body, br, *sub(body, inst), n)
+    return br
+
+
+def _simulate(qc):
+    n = qc.num_qubits
+    rho = np.zeros((2 ** n, 2 ** n), dtype=complex)
+    rho[0, 0] = 1
+    return _sim_run(qc, {0: rho}, {q: i for i, q in enumerate(qc.qubits)}, {c: i for i, c in enumerate(qc.clbits)}, n)
+
+
+def _desc(circ, qmap=None, cmap=None):
+    """[(name, qubits, clbits, blocks)] with circuit-wide bit indices, blocks described recursively"""
+    qmap = qmap or {q: i for i, q in enumerate(circ.qubits)}
+    cmap = cmap or {c: i for i, c in enumerate(circ.clbits)}
+    out = []
+    for inst in circ.data:
+        op = inst.operation
+        blocks = ()
+        if op.name in CONTROL_FLOW or getattr(op, "blocks", None):
+            blocks = tuple(tuple(_desc(b, {x: qmap[inst.qubits[i]] for i, x in enumerate(b.qubits)},
+                                       {x: cmap[inst.clbits[i]] for i, x in enumerate(b.clbits)})) for b in op.blocks)
+        out.append((op.name, tuple(qmap[q] for q in inst.qubits), tuple(cmap[c] for c in inst.clbits), blocks))
+    return out
+
+
+def _same_but_resets(before, after, perwire):
+    """`after` is `before` minus reset instructions (also inside blocks); order kept in the list, or on every wire"""
+    def match(b, a):
+        if b[0] != a[0] or len(b[3]) != len(a[3]):
+            return False
+        if not b[3]:
+            return b[1] == a[1] and b[2] == a[2]
+        # a block operation: bits are circuit-wide indices, the order in which the operation lists them is immaterial
+        return (set(b[1]) == set(a[1]) and set(b[2]) == set(a[2])
+                and all(_same_but_resets(list(x), list(y), perwire) for x, y in zip(b[3], a[3])))
+
+    def subseq(sb, sa):
+        j = 0
+        for b in sb:
+            if j < len(sa) and match(b, sa[j]):
+                j += 1
+            elif b[0] != "reset":
+                return False
+        return j == len(sa)
+
+    def wires(seq):
+        w = {}
+        for s in seq:
+            for q in s[1]:
+                w.setdefault(("q", q), []).append(s)
+            for c in s[2]:
+                w.setdefault(("c", c), []).append(s)
+        return w
+    if not perwire:
+        return subseq(before, after)
+    wb, wa = wires(before), wires(after)
+    return all(subseq(wb.get(w, []), wa.get(w, [])) for w in set(wb) | set(wa))
+
+
+def _oracle_cf(payload):
+    """the property on circuits with control-flow blocks: only resets disappear (top level or inside a block), the order of everything
+    else is kept, and the joint distribution of the classical bits with the conditional state of the qubits is unchanged.  Left out of
+    the comparison, as the property allows: qubits whose trailing reset(s) were dropped -- at top level, or inside a block that is the
+    last instruction on that qubit's wire."""
+    qc = _circ(payload)
+    before = _desc(qc)
+    try:
+        out = _apply(qc.copy(), payload["which"])
+    except Exception as ex:
+        return f"{payload['which']} raised {type(ex).__name__}: {ex}"
+    after = _desc(out)
+    if not _same_but_resets(before, after, payload["which"].startswith("dag_")):
+        return f"{payload['which']} changed something other than resets (or the order): {before} -> {after}"
+    n = payload["nq"]
+
+    def trailing(seq, q):
+        c = 0
+        for s in reversed([s for s in seq if q in s[1]]):
+            if s[0] != "reset":
+                break
+            c += 1
+        return c
+
+    def last(seq, q):
+        on = [s for s in seq if q in s[1]]
+        return on[-1] if on else None
+    dropped = set()
+    for q in range(n):
+        if trailing(after, q) < trailing(before, q):
+            dropped.add(q)
+        lb, la = last(before, q), last(after, q)
+        if lb is not None and lb[3] and la is not None and lb != la:
+            dropped.add(q)   # a reset went missing inside the block that ends this wire
+    keep = [q for q in range(n) if q not in dropped]
+    A, B = _simulate(qc), _simulate(out)
+    for k in set(A) | set(B):
+        ra = _ptrace_keep(A.get(k, np.zeros((2 ** n, 2 ** n))), keep, n)
+        rb = _ptrace_keep(B.get(k, np.zeros((2 ** n, 2 ** n))), keep, n)
+        if not np.allclose(ra, rb, atol=1e-9):
+            return (f"{payload['which']} changed the statistics of outcome {k} (qubits left out because their trailing reset was dropped: "
+                    f"{sorted(dropped)}): {before} -> {after}")
+    return None
+
+
 def oracle(kind, payload):
+    if kind == "cf":
+        return _oracle_cf(payload)
     if kind == "applied":
         # measurement statistics are unchanged: the generated experiments, evaluated exactly, give the expectation values of the circuit
         from . import c01
@@ -212,7 +534,7 @@ def oracle(kind, payload):
         return None if why is None else "reset removal inside experiment generation changed the statistics: " + why
     """Property itself on the real code: only resets removed, order kept (per wire for DAG passes), and the joint
     classical distribution + conditional state of all qubits other than those whose trailing reset was dropped is unchanged."""
-    from ..oracles.refsim import simulate
+    simulate = _simulate   # = harness/oracles/refsim.simulate on gates / measure / reset / barrier; also Move and composite instructions
     qc = _circ(payload)
     before = [tuple(map(lambda x: tuple(x) if isinstance(x, list) else x, s)) for s in _sig(canon.canon_circuit(qc)["instrs"])]
     try:
